@@ -162,7 +162,7 @@ class StatsProblem(object):
                     m[g] = rng.choice(levels)
                 else:
                     m[g] = round(nprng.random() * 6, 3)
-                sd = rng.choice([0.0, 0.02, 0.1, 0.1, 0.3, 1.0])
+                sd = rng.choice([0.0, 0.02, 0.1, 0.1, 0.3, 1.0, 4.0])
                 v[g] = 0.0 if n == 1 else sd * sd
                 pen = rng.choice(pen_levels) if rng.random() < 0.7 \
                     else nprng.random()
